@@ -147,6 +147,10 @@ func (h H) oneActionPerEntry(rule string) {
 		c2 := core.Entails(f, core.Rel{A: "leader.transfer.timer.active", Op: "!=", B: "true"}, uns)
 		h.C.Check(rule+" canChangeConfig-summary", fmt.Sprintf("(*leader).canChangeConfig true-path#%d", i+1), c1 && c2, h.fpos(ccc),
 			fmt.Sprintf("canChangeConfig may be true without: latest configuration committed (%v), no transfer in progress (%v)", c1, c2))
+		// the leader's own (automatic) actions need the same own-term commit as user requests
+		c3 := core.Entails(f, core.Rel{A: "leader.Raft.commitIndex", Op: ">=", B: "leader.startIndex"}, uns)
+		h.C.Check(rule+" own-term-commit", fmt.Sprintf("(*leader).canChangeConfig true-path#%d", i+1), c3, h.fpos(ccc),
+			"membership actions started by the leader itself (init, match-index updates, transfer end) are allowed before the leader has committed an entry of its own term: two leaders of different terms can then append different configurations on top of the same committed one")
 	}
 	dcc := h.fn("raft:(*leader).doChangeConfig")
 	for _, spec := range []string{"raft:(*leader).checkConfigActions", "raft:(*leader).checkConfigAction"} {
